@@ -564,3 +564,32 @@ def engine_D(name, kinds, nitems, maxp, tier, seed, wd_name=None, model=True, mo
                         inj += 1
         f.stats["distinct_nontrivial"] = inj
     return f
+
+
+# ------------------------------------------------------------------------------------------------
+# Engine S: behaviours generated by the specification itself (`tlc -simulate` on MCSim) over larger
+# universes, checked by TLC against the model invariants, then replayed on the real code and validated
+# ------------------------------------------------------------------------------------------------
+def engine_S(name, kinds, nitems, maxp, num, depth, seed, wit, wd_name=None):
+    f = Findings()
+    for kind in kinds:
+        wd = vlib.workdir((wd_name or name) + "_S_" + kind)
+        keys = ["k%02d" % i for i in range(nitems)]
+        consts = {"Items": vlib.tla_set(keys), "MaxP": str(maxp), "Kind": vlib.tla_str(kind), "Emit": "FALSE",
+                  "Alphabet": vlib.tla_str("core"), "SimDepth": str(depth)}
+        mc = vlib.run_mc("MCSim", consts, ["WFInv", "OrdInv", "Refines", "PeekInv", "EmitSim"], wd, view=None,
+                         nxt="SimNext", simulate="num=%d" % num, seed=seed, workers=8, timeout=1200, depth=depth + 1)
+        if mc["violated"]:
+            raise ToolError("model-level invariant %s violated in a simulated behaviour (see %s)" % (mc["violated"], mc["out"]))
+        reps = mc["replay"]
+        log("[S/%s] tlc -simulate: %d behaviours of %d steps over %d items x %d priorities satisfy WFInv OrdInv Refines PeekInv"
+            % (kind, len(reps), depth, nitems, maxp + 1))
+        f.stats["engines"].append({"engine": "S", "kind": kind, "items": nitems, "priorities": maxp + 1,
+                                   "behaviours": len(reps), "depth": depth, "seed": seed})
+        f.stats["transitions"] += len(reps) * depth
+        cases = [{"case": [kind, "sim", i], "kind": kind, "hasher": "std", "universe": keys, "steps": r["steps"],
+                  "probes": [], "wit": wit, "witsteps": 1} for i, r in enumerate(reps)]
+        if cases:
+            f.samples.append({"engine": "S", "kind": kind, "first_steps": cases[0]["steps"][:8]})
+        replay_and_validate(cases, wd, "S/" + kind, f)
+    return f
